@@ -301,6 +301,7 @@ type Verifier struct {
 	inSplit        bool
 	heapAxioms     []*Term
 	heapAxDone     map[string]bool
+	heapAxSet      map[*Term]bool
 	heapAxOf       map[string]*Term
 	axiomSet       map[*Term]bool
 	obligeHook     func(s *State, g *Term)
@@ -786,14 +787,17 @@ func (v *Verifier) refAxiom(s *State, h *Term, valType types.Type, twoLevel bool
 	if twoLevel {
 		i := v.fresh("hi", SInt)
 		_, es, _ := arrSorts(vs)
+		// only locations that existed when this heap version was created: memory allocated
+		// later (by callees) is modelled as already present in the heap at larger references
 		x := Select(Select(h, r), i)
-		ax = Forall([]*Term{r, i}, fact(x), mk("select", es, mk("select", vs, h, r), i))
+		ax = Forall([]*Term{r, i}, Implies(existed(r, al), fact(x)), mk("select", es, mk("select", vs, h, r), i))
 	} else {
 		x := Select(h, r)
-		ax = Forall([]*Term{r}, fact(x), mk("select", vs, h, r))
+		ax = Forall([]*Term{r}, Implies(existed(r, al), fact(x)), mk("select", vs, h, r))
 	}
 	s.pc = append(s.pc, ax)
 	v.heapAxOf[h.Op] = ax
+	v.heapAxSet[ax] = true
 }
 func (v *Verifier) sliceHeapSort(elemSort string) string {
 	return SArr(SInt, SArr(SInt, elemSort))
